@@ -16,7 +16,8 @@ import logging
 from bert_e import exceptions
 from bert_e.job import APIJob, handler
 from bert_e.workflow.git_utils import clone_git_repo, push
-from bert_e.workflow.gitwaterflow.branches import branch_factory
+from bert_e.workflow.gitwaterflow.branches import (branch_factory,
+                                                   QueueBranch)
 
 
 LOG = logging.getLogger(__name__)
@@ -49,11 +50,12 @@ def delete_queues(job: DeleteQueuesJob):
     if not queue_branches:
         raise exceptions.JobSuccess()
 
-    queue_branch = queue_branches[0]
-    if queue_branch.minor is None:
-        repo.checkout(f"development/{queue_branch.major}")
-    else:
-        repo.checkout(f"development/{queue_branch.major}.{queue_branch.minor}")
+    # move away from the branches about to be deleted: checkout the
+    # destination branch (development, stabilization or hotfix) of the
+    # first queue
+    QueueBranch(
+        repo, 'q/{}'.format(queue_branches[0].version)
+    ).dst_branch.checkout()
 
     for branch in queue_branches:
         branch.remove(do_push=False)
